@@ -94,6 +94,16 @@ func keyOf(k *[32]byte) *frame.V2Key {
 	if k == nil {
 		return nil
 	}
+	if k[0]&1 == 1 {
+		// half of the keys are loaded the way an application does it: through NewV2Key from a buffer that is
+		// wiped afterwards; the key must be the bytes it was built from, not a view of that buffer
+		buf := append([]byte{}, k[:]...)
+		key := frame.NewV2Key(buf)
+		for i := range buf {
+			buf[i] = 0
+		}
+		return key
+	}
 	kk := frame.V2Key(*k)
 	return &kk
 }
